@@ -441,6 +441,54 @@ Lemma single_second_thread_compacts :
   snd (step (sstep inl) c (1, SoNoTest)) 0 = SInCb 0 0.
 Proof. repeat split; reflexivity. Qed.
 
+(* (2') the same two-worker pool, one step earlier: thread 0 has the Testany hit for slot 0 (MPI has nulled the
+   slot) and has not invoked the callback yet; thread 1 polls, finds nothing and compacts; thread 0 then invokes
+   what is in callbacks_[0] NOW: the callback of r1, which MPI has not completed and no test has reported; the
+   callback of r0 has been destroyed and is never invoked.  (The model nulls the slot once, in the STest step; the
+   code stores MPI_REQUEST_NULL a second time after the hit, which in this interleaving erases r1's slot: there
+   all_in_flight_ stays 1 with nothing left to test; here r1 stays registered and would be called a second time.)
+   Replayed on the real code by `c20_mpi mtpool` (hook 2009 keeps the first thread until the other has compacted). *)
+Definition w_two_wrong_sched : list (nat * soracle) :=
+  map (fun o => (0, o))
+    [SoSubmit; SoNoTest; SoNoTest; SoSubmit; SoNoTest; SoNoTest; SoMpi 0 false;
+     SoPoll; SoNoTest; SoNoTest; SoTest 0] ++
+  map (fun o => (1, o)) [SoPoll; SoNoTest; SoNoTest; SoNoTest; SoNoTest] ++
+  map (fun o => (0, o)) [SoNoTest; SoNoTest; SoRet; SoNoTest; SoNoTest; SoNoTest; SoNoTest].
+
+Lemma single_second_thread_wrong_callback :
+  let inl := fun _ : req => false in
+  let g := fst (s_run inl w_two_wrong_sched) in
+  no_inline_add inl /\
+  mlog g = [EvCall 1 1 false; EvTest 0; EvDone 0 false; EvReg 1; EvReg 0] /\
+  (forall e, ~ In (EvDone 1 e) (mlog g)) /\ ~ In (EvTest 1) (mlog g) /\
+  ~ In 0 (calls (mlog g)) /\
+  vreq g = [Some 1] /\ vcb g = [(1, 1)] /\ in_flight g = 1 /\
+  snd (s_run inl w_two_wrong_sched) 0 = SIdle /\ snd (s_run inl w_two_wrong_sched) 1 = SIdle.
+Proof.
+  cbv zeta. split; [intro; reflexivity|].
+  split; [vm_compute; reflexivity|].
+  split; [intros e; vm_compute; intros H; repeat (destruct H as [H|H]; [discriminate H|]); exact H|].
+  split; [vm_compute; intros H; repeat (destruct H as [H|H]; [discriminate H|]); exact H|].
+  split; [vm_compute; intros H; repeat (destruct H as [H|H]; [discriminate H|]); exact H|].
+  repeat split; vm_compute; reflexivity.
+Qed.
+
+(* register_polling installs poll_singlethreaded only for a polling pool with exactly one worker: what makes
+   [one_thread] true of the real code (the statement is provable only while the translator finds the conjunct
+   `pool.get_os_thread_count() == 1` in register_polling: GenMpi.single_mode_one_worker = true) *)
+Lemma single_mode_one_worker_lemma pool w m :
+  single_thread_mode pool w m = true -> w = 1 /\ single_threaded pool m = true.
+Proof.
+  unfold single_thread_mode. intros H. apply andb_prop in H. destruct H as (H1 & H2).
+  split; [apply Nat.eqb_eq; exact H2|exact H1].
+Qed.
+Lemma single_mode_polling_fn pool w m :
+  p_fn (p_run [PStart pool w m]) = Some true -> w = 1.
+Proof.
+  rewrite polling_enabled_iff. destruct (m_method m); try discriminate;
+    intros H; injection H as H; apply single_mode_one_worker_lemma in H; tauto.
+Qed.
+
 (* a complete one-thread run: two requests, both completed (the second with an error status), both called
    back once in completion order, counter back to zero, vectors empty *)
 Definition w_single_run : list (nat * soracle) :=
